@@ -291,7 +291,7 @@ void applyOption(TypedArgBase* a, const std::string& slot, const std::string& op
    }
    else if (name == "excl") a->addConstraint(pa::excludes(val));
    else if (name == "req") a->addConstraint(pa::requiresArg(val));
-   else if (name == "init" || name == "desc") { /* handled elsewhere */ }
+   else if (name == "init" || name == "desc" || name == "try") { /* handled elsewhere */ }
    else if (!name.empty()) throw std::invalid_argument("unknown option " + name);
 }
 
@@ -442,8 +442,19 @@ std::string run_case(const std::vector<std::string>& w)
             if (o.rfind("desc=", 0) == 0) desc = vf::unhexs(o.substr(5));
          }
          // slot "af<n>": the argument that names an argument file (Handler::addArgumentFile), no destination
-         TypedArgBase* ta = slot.rfind("af", 0) == 0 ? h->addArgumentFile(keyspec)
-                                                     : h->addArgument(keyspec, bindSlot(S, slot), desc);
+         // option "try": a definition that is refused is survived (the caller catches the exception) and the
+         // evaluation goes on with what was accepted
+         const bool tolerated = std::find(opts.begin(), opts.end(), "try") != opts.end();
+         TypedArgBase* ta = nullptr;
+         try
+         {
+            ta = slot.rfind("af", 0) == 0 ? h->addArgumentFile(keyspec)
+                                          : h->addArgument(keyspec, bindSlot(S, slot), desc);
+         } catch (const std::exception&)
+         {
+            if (!tolerated) throw;
+            return;
+         }
          for (auto& o : opts) applyOption(ta, slot, o);
       };
       auto constrain = [&](pa::Handler* h, Member& m) {
